@@ -270,11 +270,23 @@ def build(cfg, data):
     base = Memory() if st in ("Memory", "Auditable") else SimpleMemory()
     store = AuditableStore(base) if st == "Auditable" else base
     fac = cfg.get("facade", "graph")
-    if fac == "graph":
+    if fac in ("graph", "graph_shared"):
         g = Graph(store=store, identifier=URIRef(PFX + "thegraph"))
         for q in data["quads"]:
             if q[3] == "D":
                 g.add(tuple(conc(x) for x in q[:3]))
+        if fac == "graph_shared":
+            # the store holds other graphs, too: between the same subjects and objects but under other predicates, the same triples reversed,
+            # and some of the graph's own triples; none of it is part of this graph
+            other = Graph(store=store, identifier=URIRef(PFX + "othergraph"))
+            extra = [URIRef(PFX + "p"), URIRef(PFX + "q"), URIRef(PFX + "zz")]
+            for i, t in enumerate(list(g)):
+                other.add((t[0], extra[(i + (0 if t[1] != extra[0] else 1)) % 3], t[2]))
+                if not isinstance(t[2], Literal):
+                    other.add((t[2], t[1], t[0]))
+                if i % 2:
+                    other.add(t)
+            Graph(store=store, identifier=BNode("third")).add((URIRef(PFX + "n1"), URIRef(PFX + "p"), URIRef(PFX + "n1")))
         return g
     if fac == "aggregate":
         from rdflib.graph import ReadOnlyGraphAggregate
@@ -401,7 +413,13 @@ def replay(cfg, events):
                 try:
                     if op == "query":
                         text = q_text(q)
-                        if e.get("prefixed"):
+                        if e.get("prefixed") == "base-rel":
+                            # a PREFIX whose namespace is a relative reference: it resolves against the BASE in force where it is declared,
+                            # not against a BASE that follows it
+                            import re
+                            text = ("BASE <http://wrong.example/first/> BASE <urn:x:> PREFIX x: <> BASE <http://wrong.example/last/> PREFIX w: <w#>\n"
+                                    + re.sub(r"<urn:x:([A-Za-z][A-Za-z0-9]*)>", r"x:\1", text))
+                        elif e.get("prefixed"):
                             import re
                             text = "PREFIX x: <urn:x:>\n" + re.sub(r"<urn:x:([A-Za-z][A-Za-z0-9]*)>", r"x:\1", text)
                         kw = {}
